@@ -12,6 +12,16 @@ COMMON_NOTE = ("Trusted: Coq 8.16.1 kernel (vm_compute used, native_compute not 
                "runtime semantics are modelled as executable Gallina and validated by the correspondence, not verified.")
 
 CLAIMED = {
+    "C05": dict(
+        text="Coq theorems for an ARBITRARY test function (Section variable), all tables, configs and window layouts: the models of NumpyStream/NetcdfStream/QcConfig.run equal the specification 'each test is called on the rows with starting <= t < ending, in original order, with time/depth/position restricted likewise'; PandasStream equals it for every unique row index; XarrayStream equals it under the hypothesis the proof forces (both bounds or none, no row at `ending`) with a Coq refutation outside it (known finding F9). Tied by running all four front ends + QcConfig.run on generated programs (tables x contexts x windows x streams x probe tests registered at run time) against the front-end models, the specification and direct calls. Partial: pandas/xarray/numpy selection semantics are modelled, not verified.",
+        design_ref="DESIGN.md §8 C05",
+        technique="Coq proof (front-end model = window-rows specification, for any test function) + correspondence on generated programs",
+    ),
+    "C18": dict(
+        text="Coq theorems for an arbitrary test function and arbitrary configurations: the results produced equal those of the configuration with every failing entry removed (any number and placement of faults), every call yields what it yields alone, and collect ignores ContextResults without CallResults. Tied by running all four front ends on programs with sprinkled faults (unknown module/test, absent stream id, missing required input, raising test) against the models and by comparing, on the implementation, full vs healthy-only collected results.",
+        design_ref="DESIGN.md §8 C18",
+        technique="Coq proof (filter/flat_map commutation over the configuration) + fault-injection correspondence",
+    ),
     "C06": dict(
         text="Coq theorems by induction over ARBITRARY sequences of ContextResults (any number of contexts, any window layout incl. overlapping, any yield order, any stream/test multiplicity): both collect forms expose exactly one accumulator per (stream, package, test) in first-seen order (NoDup, complete) and its row i holds the flag of the last context covering i, masked/UNKNOWN if none; covered/uncovered/list-dict agreement and permutation invariance for disjoint windows are corollaries. Faithful model (incl. the data/axis arrays and numpy's scatter errors) tied to the code by correspondence on generated histories; the property's specification is additionally compared with the implementation on the well-formed disjoint histories. Known finding F11 (list form raises without axis arrays) is refuted in Coq by a witness and reported as KNOWN-FINDING.",
         design_ref="DESIGN.md §8 C06",
